@@ -19,6 +19,92 @@ if HERE not in sys.path:
 sys.dont_write_bytecode = True
 
 
+class JobError(Exception):
+    """raised by the job function of the failing-job dispatch scenario; args[0] = the task value"""
+
+
+class IterTracer:
+    """(harness instrumentation, this process only) wraps `parallel.iter_unordered` - every caller in the
+    library goes through the module attribute - so that a refusal run can be cut into its iter_unordered
+    EPISODES: per rank and call number a begin/end mark in the simulator log, the number of items the
+    iterable holds (root; materialised there), the outcome of every call of the job function on that rank
+    ('K' returned / 'E' raised, in order), how many results were yielded and how the iterator ended.
+    Pass-through while `on` is False."""
+
+    def __init__(self, MPI, parallel):
+        self.MPI, self.parallel, self.orig = MPI, parallel, parallel.iter_unordered
+        self.on = False
+        self.reset()
+        tracer = self
+
+        def traced(func, iterable, **kwargs):
+            if not tracer.on:
+                yield from tracer.orig(func, iterable, **kwargs)
+                return
+            rank = parallel.COMM.Get_rank()
+            k = tracer.count.get(rank, 0)
+            tracer.count[rank] = k + 1
+            rec = dict(calls="", nyield=0, outcome=None, ntasks=None, kwargs=sorted(kwargs))
+            tracer.eps.setdefault(k, {})[rank] = rec
+            if rank == 0:
+                iterable = list(iterable)
+                rec["ntasks"] = len(iterable)
+
+            def func2(*a, **kw):
+                try:
+                    res = func(*a, **kw)
+                except Exception:
+                    rec["calls"] += "E"
+                    raise
+                rec["calls"] += "K"
+                return res
+
+            tracer.mark(rank, "begin", k)
+            try:
+                for x in tracer.orig(func2, iterable, **kwargs):
+                    rec["nyield"] += 1
+                    yield x
+                rec["outcome"] = ["returned"]
+            except Exception as err:
+                rec["outcome"] = ["raised", type(err).__name__, str(err)[:160]]
+                raise
+            finally:
+                tracer.mark(rank, "end", k)
+
+        parallel.iter_unordered = traced
+
+    def reset(self):
+        self.eps, self.count = {}, {}
+
+    def mark(self, rank, what, k):
+        w = self.MPI._world
+        with w.lock:
+            w._log(rank, "mark:" + what, None, None, 0, "ep%d" % k)
+
+    def episodes(self, log, size):
+        """[{ep, ranks: {rank: record}, complete, log: the events of the episode on COMM_WORLD}]"""
+        marks = {}
+        for e in log:
+            if e[2] == "mark:begin":
+                marks[(e[1], int(e[6][2:]))] = [e[0], None]
+            elif e[2] == "mark:end" and (e[1], int(e[6][2:])) in marks:
+                marks[(e[1], int(e[6][2:]))][1] = e[0]
+        out = []
+        for k in sorted(self.eps):
+            iv = {r: marks.get((r, k)) for r in range(size)}
+            evs = []
+            for e in log:
+                m = iv.get(e[1]) if e[1] is not None else None
+                if m and e[5] == 0 and m[0] < e[0] and (m[1] is None or e[0] < m[1]) and not e[2].startswith("mark:"):
+                    evs.append(e)
+            entered = {(e[2][6:], e[6]) for e in evs if e[1] == 0 and e[2].startswith("enter:")}
+            evs += [e for e in log if e[1] is None and e[5] == 0 and e[2].startswith("done:") and (e[2][5:], e[6]) in entered]
+            evs.sort(key=lambda e: e[0])
+            out.append(dict(ep=k, ranks={str(r): self.eps[k].get(r) for r in range(size)},
+                            complete=all(iv[r] is not None and iv[r][1] is not None for r in range(size)), log=evs))
+        return out
+
+
 def main():
     job_path, out_path = sys.argv[1], sys.argv[2]
     job = json.load(open(job_path))
@@ -64,6 +150,7 @@ def main():
     threading.Thread(target=killer, daemon=True).start()
 
     import c06_common as cc
+    tracer = IterTracer(MPI, parallel)
     timeout = float(job.get("timeout", 60.0))
     poisoned = False
     for j in job["jobs"]:
@@ -81,7 +168,7 @@ def main():
                             lambda rank, j=j: cc.stage_rest(j["spec"], j["caches"], j["outdir"], j["max_workers"],
                                                             rank == 0, j.get("ops")))
         elif kind == "refusal":
-            res = run_refusal(MPI, size, j, timeout, cc)
+            res = run_refusal(MPI, size, j, timeout, cc, tracer)
         elif kind == "selftest":
             res = run_selftest(MPI, size, timeout)
         else:
@@ -122,6 +209,7 @@ def run_dispatch(MPI, parallel, size, j, timeout):
     mw = j.get("max_workers")
     node_only = bool(j.get("node_only"))
     sched0 = dict(j.get("sched") or {})
+    bad = set(j["bad"]) if j.get("bad") is not None else None
 
     def one(sched):
         executed = []
@@ -130,10 +218,24 @@ def run_dispatch(MPI, parallel, size, j, timeout):
         def f(t):
             with lock:
                 executed.append([parallel.COMM.Get_rank(), t])
+            if bad is not None and t in bad:
+                raise JobError(t)
             return 3 * t + 1
 
         def fn(rank):
-            return list(parallel.iter_unordered(f, iter(list(tasks)), max_workers=mw, rank0_node_only=node_only))
+            it = parallel.iter_unordered(f, iter(list(tasks)), max_workers=mw, rank0_node_only=node_only)
+            if bad is None:
+                return list(it)
+            # failing-job scenario: what the iterator yielded before it ended, and how it ended, per rank
+            got = []
+            try:
+                for x in it:
+                    got.append(x)
+            except JobError as err:
+                return {"got": got, "raised": ["JobError", err.args[0] if err.args else None]}
+            except Exception as err:
+                return {"got": got, "raised": [type(err).__name__, str(err)[:200]]}
+            return {"got": got, "raised": None}
 
         run = MPI.run_world(size, MPI.Schedule.from_dict(sched), fn, timeout)
         p = pack(run, keep_log=True, all_ranks=True)
@@ -194,13 +296,23 @@ def collective_traces(log, size):
     return worlds
 
 
-def run_refusal(MPI, size, j, timeout, cc):
+def run_refusal(MPI, size, j, timeout, cc, tracer=None):
     """a refused request + barrier + valid follow-up operation on every rank of one world"""
     first = {}
     body = lambda rank: cc.stage_refusal(j["cls"], j["spec"], j["env"], j["par"], j["max_workers"], rank, first,
                                          j["follow"])
-    run = MPI.run_world(size, MPI.Schedule.from_dict(j.get("sched")), body, timeout)
+    trace = bool(j.get("trace")) and tracer is not None
+    if trace:
+        tracer.reset()
+        tracer.on = True
+    try:
+        run = MPI.run_world(size, MPI.Schedule.from_dict(j.get("sched")), body, timeout)
+    finally:
+        if tracer is not None:
+            tracer.on = False
     p = pack(run, keep_log=False)
+    if trace:
+        p["episodes"] = tracer.episodes(run["log"], size)
     p["sched"] = j.get("sched")
     p["first"] = {str(r): v for r, v in sorted(first.items())}
     p["ctraces"] = collective_traces(run["log"], size)
